@@ -290,7 +290,12 @@ def pslq(ctx, x, tol=None, maxcoeff=1000, maxsteps=100, verbose=False):
                 # We are done if the coefficients are acceptable
                 vec = [int(round_fixed(B[j,i], prec) >> prec) for j in \
                 range(1,n+1)]
-                if max(abs(v) for v in vec) < maxcoeff:
+                # (y carries the rounding errors of the reduction, which
+                # grow with the coefficients: the relation is checked
+                # against x itself)
+                if max(abs(v) for v in vec) < maxcoeff and \
+                    abs(sum(v*xk for (v, xk) in zip(vec, x[1:]))) <= \
+                        ((tol*xnorm) >> prec):
                     if verbose:
                         print("FOUND relation at iter %i/%i, error: %s" % \
                             (REP, maxsteps, ctx.nstr(err / ctx.mpf(2)**prec, 1)))
